@@ -4,7 +4,7 @@ after an independent implementation of the documented tilde rule for non-raw for
 import os
 from pyvc.contract import *
 
-POOL = ["*", "a", "a b", "x=y", "--bind=::1", "LABEL=a:", "a::b", "t=12:30", "x=~/p:~/q", "~/f", "~", "q'uote", 'dq"uote', "back\\slash", "new\nline", "*.py", "sp  ace",
+POOL = ["", "*", "a", "a b", "x=y", "--bind=::1", "LABEL=a:", "a::b", "t=12:30", "x=~/p:~/q", "~/f", "~", "q'uote", 'dq"uote', "back\\slash", "new\nline", "*.py", "sp  ace",
         "é日本", "-", "#x", "a;b", "(p)", "x=", "=", "k=:v", "a|b", "a&b", "a>b", "$", "tab\there", "trail ", " lead", "[x]", "{a,b}", "x=~", "~user-that-does-not-exist/z",
         "\\", '"""', "'''", "a\\nb"]
 
@@ -32,6 +32,8 @@ def _forms(text):
     out.append(("word@(expr)", "w@(%s)" % lit, "adjacent"))
     if "\n" not in text and not text.endswith("\\") and "'" not in text:
         out.append(("r'...'", "r'%s'" % text, False))
+    if text == "":
+        return [f for f in out if f[0] in ("@(expr)", "@([list])", "r'...'")] + [("'...' / \"...\"", lit, True)]
     if not text.endswith("\\") and '"""' not in text and not text.endswith('"'):
         out.append(('r"""..."""', 'r"""%s"""' % text, False))
     if "$" not in text:
